@@ -6,6 +6,7 @@ import Driver.Budget
 import Driver.PageLocks
 import Driver.GroupCommit
 import Driver.CommitOrder
+import Driver.CommitCover
 import Driver.KeyEnc
 import Driver.Simd
 import Driver.SqlJoin
@@ -46,6 +47,7 @@ def main (args : List String) : IO UInt32 := do
   match args with
   | ["varint"] => Driver.loop stdin stdout () Driver.Varint.step; return 0
   | ["commitorder"] => Driver.loop stdin stdout () Driver.CommitOrder.step; return 0
+  | ["commitcover"] => Driver.loop stdin stdout ({} : TurVerif.CommitCover.St) Driver.CommitCover.step; return 0
   | ["groupcommit"] => Driver.loop stdin stdout (TurVerif.GroupCommit.init []) Driver.GroupCommit.step; return 0
   | ["pagelocks"] => Driver.loop stdin stdout (TurVerif.PageLocks.init false []) Driver.PageLocks.step; return 0
   | ["budget"] => Driver.loop stdin stdout (TurVerif.Budget.init 0 []) Driver.Budget.step; return 0
